@@ -22,6 +22,9 @@ CONFIG = {
                     'little-endian host', 'a stream Read returns min(size, remaining) bytes'],
     'trusted_base': ['modelled by hand, tied by correspondence only: control flow of InputSplitBase (as C03) and '
                      'RecordIOSplitter::SeekRecordBegin / FindLastRecordBegin / ExtractNextRecord'],
+    # all C04_* theorems are proved at full strength. Not a Lean theorem here: the tiling of ONE delivered chunk by
+    # RecordIOChunkReader with q sub-parts (that is property C02's theorem); the harness oracle exercises it (drain chunkrd q)
+    # and the Lean side proves every chunk is `writeAll run` for a contiguous run of whole records + the C01 reader round trip.
     'partial': [],
 }
 
